@@ -268,8 +268,11 @@ ITEMS = location_types() + budget_types() + error_types() + [
                  canaries=['C16:use_site_is_alias_location_while_replaying']),
          }),
     dict(src=L, path='impl LiveEvents/fn observe_budget_for_replay', props=['C07', 'C08', 'C01'],
+         # F47: "tagged or not" is what the enforcer asks of a scalar; the marker tag built for a replayed tagged scalar (R8)
+         pre_rewrites=[(r'raw_tag\.as_ref\(\)\.map\(\|_\| \{\s*Cow::Owned\(Tag \{[^}]*\}\)\s*\}\)', 'replay_tag_marker(raw_tag)', None, 'R8')],
          rewrites=[(r'Cow::Borrowed\(value\)', 'cowstr_borrow(value)', None, 'R8'),
                    (r'Cow::Borrowed\(("[^"]*")\)', r'cowstr_of_literal(\1)', None, 'R8'),
+                   # F47: "tagged or not" is what the enforcer asks of a scalar; the marker tag built for a replayed tagged scalar (R8)
                    (r'budget\s*\.observe\(&raw\)\s*\.map_err\(\|breach\| budget_error\(breach\)\.with_location\(ev\.location\(\)\)\)',
                     '(match budget.observe(&raw) { Ok(__v) => Ok(__v), Err(breach) => Err(budget_error(breach).with_location(ev.location())) })', None, 'R18')],
          requires=[('enforcer_consistent', '''old(self).budget is Some ==> {
